@@ -26,7 +26,7 @@ ENTRY = dict(
                    "classes `translated method = intCodec / Inst.step (intInst t)` for ALL values, buffers, offsets and slot states (`*_code_lawful`, `IntClass.sim`, `sim_run`, `data_types_tbl`), Props/TieTypesB.lean `translated BitArray method = bitUnpack / bitValue / bitSize / bitNext / bitPack` (all buffers, raw bytes, indexes); "
                    "Props/TieTypesC.lean `translated String / VarString / VarBytes = stringCodec / varCodec / varInst.packI` (texts as Lean strings, wire form = UTF-8 bytes, sizes in BYTES; `decode_encode`; "
                    "`String_code_lawful`, `VarString_code_lawful`, `VarBytes_code_lawful`), Props/TieTypesD.lean `translated IPv4 / IPv6 / Float / Double / Undefined = addrCodec / bitsCodec` (`aton_ntoa`: the prelude's inet_aton inverts inet_ntoa on all 2^32 addresses; "
-                   "`IPv4_code_lawful`, `IPv6_code_lawful`, `Float_code_lawful`, `Double_code_lawful`), the BitArray constructor (`BitArray_construct_sim` = BitInst.step construct) and `DataType.__eq__` as seen from all 17 classes (`*_eq_eq` = `eqModel`); "
+                   "`IPv4_code_lawful`, `IPv6_code_lawful`, `Float_code_lawful`, `Double_code_lawful`), the BitArray constructor (`BitArray_construct_sim` = BitInst.step construct) `DataType.__eq__` as seen from the 17 classes is TRANSLATED and VALIDATED AGAINST CPYTHON only (harness/pycode_types.py): there is no model tie for it — `*_eq_eq` = `eqModel` is a restatement in the same file used by no property theorem, and for Float / Double / IPv6 values and `X(v) == X()` both sides are `unsupported`; WHAT THE HYPOTHESES EXCLUDE: offsets and bit indexes are `Nat` (negative offsets / indexes: no theorem), slots hold `Option Int` / `Option UInt8` values of the class (`SignedChar('x')`, `BitArray(300)` outside); invalid UTF-8 is `unsupported` on BOTH sides of the String / VarString theorems (value AND size unproved for such buffers; Python returns U+FFFD text); `Float` / `Double` only for a slot holding the bit pattern of the class's own width (`Float(x)` of an ordinary double: `unsupported`); operation-SEQUENCE simulation (`sim_run`) exists for the eight integer classes only (String / Var* / IPv4 / IPv6 / Float / Double / BitArray are tied method by method); `IntClass.runOp` builds 'an exception leaves the instance unchanged' into the observer (not proved); "
                    "translator + PyPreludeTypes are validated against CPython by harness/pycode_types.py (result and instance slots afterwards).",
         clauses={
             "unpack(pack v) = v, every representable value (ints, float/double bit patterns, IPv4/IPv6 tuples, strings/bytes as byte lists)": "theorem",
@@ -38,8 +38,9 @@ ENTRY = dict(
             "re-used instance: to_bytes = pack of the value constructed / unpacked last, size = its length, for every operation sequence": "theorem (canonical operations: representable values, buffers that start with a packed form)",
             "struct formats / sizes of the ten struct-backed classes": "table",
             "model codecs = data_types.py classes; float<->bits, UTF-8, inet text forms": "correspondence",
-            "translated source of the eight integer classes = model codec / instance machine, all inputs (TieTypes)": "theorem (code tie; soft mode: CODE-TIE-BROKEN)",
-            "translated source of String / VarString / VarBytes / IPv4 / IPv6 / Float / Double / Undefined / BitArray(...) / __eq__ = model codecs, all inputs (TieTypesB-D)": "theorem (code tie; soft mode: CODE-TIE-BROKEN)",
+            "translated source of the eight integer classes = model codec / instance machine, all values / buffers / slot states, offsets in Nat (TieTypes)": "theorem (code tie; soft mode: CODE-TIE-BROKEN)",
+            "translated source of String / VarString / VarBytes / IPv4 / IPv6 / Float / Double / Undefined / BitArray(...) = model codecs, method by method (TieTypesB-D): offsets / indexes in Nat, valid UTF-8 only (invalid: unsupported on both sides), floats as bit patterns of the class's width": "theorem (code tie; soft mode: CODE-TIE-BROKEN)",
+            "translated DataType.__eq__ (17 classes)": "correspondence only (translated and validated against CPython; no model tie)",
         },
         assumptions=COMMON_ASSUME + [
             "strings are modelled as their UTF-8 byte strings, addresses as byte tuples, floats as IEEE bit patterns; the conversions are CPython's",
